@@ -124,7 +124,9 @@ def run(P, C, tier):
         n1 += 1
         if params and not verified:
             # the row arrives as a parameter: audited table of callers
-            ok = owner == "PeerManager::invite_accepted" and params in (["param:peer"], ["upvar:peer"])
+            rows = {"param:" + n for n in b.find_locals(ty=r"node::Node$", arg=True)} | {"upvar:" + n for n in b.find_locals(ty=r"node::Node$", arg=True)}
+            rows |= {"upvar:" + t[6:] for t in params if t.startswith("upvar:") and re.search(r"node::Node$", b.upvar_type(t[6:]))}
+            ok = owner == "PeerManager::invite_accepted" and len(params) == 1 and params[0] in rows
             C.ob("R1", key, ok and not net, b.loc(bi), "row received as parameter %s: verified by the caller (Peer::validate dominates invite_accepted, decided by C19-R1)" % params)
         else:
             C.ob("R1", key, verified and not net, b.loc(bi), "flows from %s; unverified network sources: %s" % (sorted(mir.short(x) for x in bars), net or "none"))
@@ -134,10 +136,14 @@ def run(P, C, tier):
         rc = P.body("SignatureVerificationService::room_check")
         C.saw(rc)
         exp = []
+        root = rc.the_local("the room definition under verification", ty=r"room_node::RoomNode$", param=True)
         expected_paths(P, "database::room_node::RoomNode", "node", exp)
         got = {}
         for bi, t in rc.calls_to(r"database::(node::Node|edge::Edge)::verify$"):
-            got[mir.full_path(rc, rc.call_args(bi)[0])] = (bi, mir.short(callee_name(t)))
+            fp = mir.full_path(rc, rc.call_args(bi)[0])
+            if fp.split(".")[0] == root:
+                fp = ".".join(["node"] + fp.split(".")[1:])    # keys name the parameter `node` whatever its spelling
+            got[fp] = (bi, mir.short(callee_name(t)))
         for p, fn in exp:
             g = got.get(p)
             ok = g is not None and g[1] == fn
@@ -191,8 +197,10 @@ def run(P, C, tier):
     try:
         an = P.body("GraphDatabase::add_nodes::{closure#0}")
         C.saw(an)
-        pushes_valid = [bi for bi, t in an.calls_to(r"Vec::push$") if field_path(an.call_args(bi)[0]).split(".")[-1] == "valid_nodes"]
-        pushes_invalid = [bi for bi, t in an.calls_to(r"Vec::push$") if field_path(an.call_args(bi)[0]).split(".")[-1] == "invalid_nodes"]
+        # the accepting list holds rows (Vec<NodeToInsert>), the rejecting one identifiers (Vec<Uid>): identified by type
+        pushes_valid = [bi for bi, t in an.calls_to(r"Vec::push$") if re.search(r"^Vec<NodeToInsert>$", mir.short_type(an.root_type(mir.strip(an.call_args(bi)[0]))))]
+        pushes_invalid = [bi for bi, t in an.calls_to(r"Vec::push$") if re.search(r"^Vec<\[u8; 16\]>$", mir.short_type(an.root_type(mir.strip(an.call_args(bi)[0]))))]
+        ROOM = an.find_locals(ty=r"^\[u8; 16\]$", arg=True)
         C.ob("R3", "valid-push-sites", len(pushes_valid) == 1, an.loc(), "one accepting site", nontrivial=False)
         need = {"room": False, "room-some": False, "name_for": False, "get_entity": False, "json": False, "node-some": False}
         entity_gate = False
@@ -202,7 +210,7 @@ def run(P, C, tier):
                 dv = mir.discr_variants(term, vals)
                 if atom[0] == "call" and atom[1].endswith("::eq") and truth is True:
                     ps = [field_path(x) for x in atom[2]]
-                    if any(p == "room_id" for p in ps) and any(p.endswith("node.room_id") or p.endswith(".room_id") for p in ps if p != "room_id"):
+                    if len(ROOM) == 1 and any(p == ROOM[0] for p in ps) and any(p.endswith(".room_id") for p in ps if p != ROOM[0]):
                         need["room"] = True
                     if any("old_entity" in p for p in ps) and any(p.endswith("_entity") for p in ps):
                         entity_gate = True
@@ -216,7 +224,7 @@ def run(P, C, tier):
                         need["get_entity"] = True
                     if names == ["Ok"] and mir.has_call(base, r"validate_json_for_entity$"):
                         need["json"] = True
-                    if names == ["Some"] and mir.has_call(base, r"Option.*::as_ref$") and field_path(base).endswith("node_to_insert.node"):
+                    if names == ["Some"] and mir.has_call(base, r"Option.*::as_ref$") and an.cpath(base).endswith("‹NodeToInsert›.node"):
                         need["node-some"] = True
                     if names == ["Some"] and field_path(base).endswith("old_entity"):
                         pass
